@@ -489,3 +489,32 @@ def parallel(fns, n=None):
     with cf.ThreadPoolExecutor(max_workers=n or NCPU) as ex:
         futs = [ex.submit(f) for f in fns]
         return [f.result() for f in futs]
+
+
+def validate_lines(ctx, module, rows_or_path, env=None, timeout=1100, cfg=None, workers=None):
+    """Pattern F: run a two-level trace module (variables phase, idx, ok; PrintT(<<"@BAD", idx>>))
+    over an ndjson file.  Returns (n_evaluated, bad_indices(1-based), TlcResult).
+    n_evaluated < number of lines means TLC gave no verdict for some lines (infrastructure)."""
+    if isinstance(rows_or_path, str):
+        path = rows_or_path
+        with open(path) as f:
+            n = sum(1 for l in f if l.strip())
+    else:
+        path = ctx.path("lines_%s_%d.ndjson" % (module, len(os.listdir(ctx.work))))
+        write_ndjson(path, rows_or_path)
+        n = len(rows_or_path)
+    if n == 0:
+        r = TlcResult(); r.rc = 0
+        return 0, [], r
+    e = {"TRACE": path}
+    if env:
+        e.update(env)
+    r = tlc(module, cfg=cfg, env=e, timeout=timeout, workers=workers, quiet=True)
+    bad = sorted(set(int(x) for x in re.findall(r'<<\s*"@BAD",\s*(\d+)', r.out)))
+    if r.rc != 0 or r.distinct != 1 + 2 * n:
+        # evaluation error inside TLC (spec applied to an unexpected shape) or timeout
+        evaluated = max(0, (r.distinct - 1 - n)) if r.distinct > n else 0
+        log("[validate_lines] %s: rc=%s distinct=%d expected=%d\n%s" % (module, r.rc, r.distinct, 1 + 2 * n,
+            (r.violation or r.error or "")[:1500]))
+        return evaluated, bad, r
+    return n, bad, r
